@@ -216,7 +216,9 @@ def eval_case(case: dict) -> dict:
             rec(keys + [a], d - 1)
 
     rec(list(prefix), depth)
-    return {"viol": list(viol_best.values()), "nt_n": cnt["multi_page"] + cnt["rejected"], "evals": n_docs, "cnt": {k: v for k, v in cnt.items() if v},
+    return {"viol": list(viol_best.values()), "nt_n": cnt["multi_page"] + cnt["rejected"], "evals": n_docs,
+            "sample": {"levels": L, "prefix": case["prefix"], "depth": depth, "documents": n_docs, "rendered": cnt["rendered"], "rejected_non_contiguous": cnt["rejected"],
+                       "multi_page": cnt["multi_page"]} if depth >= 2 else None, "cnt": {k: v for k, v in cnt.items() if v},
             "states": n_docs, "transitions": max(0, n_docs - 1)}
 
 
